@@ -49,7 +49,12 @@ type badOutcome struct {
 	Spun    bool
 	Panic   interface{}
 	Skipped bool
+	// Stack: growth of the memory reserved for goroutine stacks while the input was consumed
+	Stack uint64
 }
+
+// stackSlack: stack memory the server may take for one connection whatever it is sent.
+const stackSlack = 8 << 20
 
 // runtime/metrics flushes per-P allocation statistics lazily, so the delta is only accurate to a
 // few hundred KiB; the constant of the bound is set well above that.
@@ -104,9 +109,12 @@ func RunBadInput(sc BadInput) (o badOutcome) {
 	NoBubble(func() {
 		w := NewWorld(Cfg{Orca: "l1only", Lock: "none", Proto: sc.Proto, L1H: "std"})
 		s := w.Connect(0)
-		a0 := heapAllocBytes()
+		a0, s0 := heapAllocBytes(), stackBytes()
 		s.Send(sc.Bytes)
 		out.Alloc = heapAllocBytes() - a0
+		if s1 := stackBytes(); s1 > s0 {
+			out.Stack = s1 - s0
+		}
 		out.Waiting = !s.Ended
 		out.Replied = len(s.Cli.Out)
 		if !sc.KeepOpen {
@@ -124,7 +132,7 @@ func RunBadInput(sc BadInput) (o badOutcome) {
 			s.Hangup()
 		}
 	})
-	out.Bound = allocSlack + 4*uint64(len(sc.Bytes)) + decl
+	out.Bound = allocSlack + 256*uint64(len(sc.Bytes)) + decl // cumulative allocation: replies, error values and the harness's own transcript cost a few hundred bytes per input unit
 	if out.Alloc > out.Bound {
 		debug.FreeOSMemory()
 	}
@@ -132,6 +140,13 @@ func RunBadInput(sc BadInput) (o badOutcome) {
 }
 
 var allocSample = []metrics.Sample{{Name: "/gc/heap/allocs:bytes"}}
+var stackSample = []metrics.Sample{{Name: "/memory/classes/heap/stacks:bytes"}}
+
+// stackBytes is the memory currently reserved for goroutine stacks.
+func stackBytes() uint64 {
+	metrics.Read(stackSample)
+	return stackSample[0].Value.Uint64()
+}
 
 // heapAllocBytes is the cumulative number of bytes allocated on the heap by this process
 // (runtime/metrics; unlike ReadMemStats it does not stop the world).
@@ -146,6 +161,9 @@ func (o badOutcome) verdict(sc BadInput) (clause, detail string) {
 	}
 	if o.Panic != nil {
 		return "panic-escaped", fmt.Sprint(o.Panic)
+	}
+	if o.Stack > stackSlack {
+		return "stack-growth", fmt.Sprintf("consuming %d input bytes made the goroutine stacks grow by %d bytes (recursion per input unit: a longer input of the same shape overflows the stack, which kills the whole process)", len(sc.Bytes), o.Stack)
 	}
 	if o.Spun {
 		return "spin", "the server keeps reading a connection the client has closed"
@@ -327,6 +345,28 @@ func runC11(c *rt.Ctx) {
 		try(BadInput{Proto: "text", Bytes: long, KeepOpen: false, Tag: "longline"})
 		try(BadInput{Proto: "text", Bytes: append(append([]byte("get "), long...), '\r', '\n'), KeepOpen: false, Tag: "longline"})
 		c.Sample(map[string]interface{}{"input": "100000 x 'g' without newline", "proto": "text"})
+		// many short units: blank / whitespace-only / unknown lines after a valid command, and runs of
+		// minimal binary frames (no-ops, unknown opcodes, quiet gets of a missing key)
+		for _, unit := range []string{"\r\n", "\n", " \r\n", "x\r\n", "get\r\n"} {
+			for _, n := range []int{1000, 60000} {
+				b := append([]byte("get a\r\n"), []byte(strings.Repeat(unit, n))...)
+				try(BadInput{Proto: "text", Bytes: b, KeepOpen: true, Tag: "many-lines"})
+			}
+		}
+		for _, op := range []byte{0x0a, 0x05, 0x09, 0x0d, 0xff} {
+			var b []byte
+			for i := 0; i < 20000; i++ {
+				k := uint16(0)
+				if op == 0x09 || op == 0x0d {
+					k = 1
+				}
+				b = append(b, binHeader(op, k, 0, uint32(k), uint32(i))...)
+				if k == 1 {
+					b = append(b, 'z')
+				}
+			}
+			try(BadInput{Proto: "binary", Bytes: b, KeepOpen: true, Tag: "many-frames"})
+		}
 	}
 	c.Sample(map[string]interface{}{"input": fmt.Sprintf("%x", binHeader(1, 3, 8, 5, 0x01020304)), "proto": "binary", "meaning": "set with total body 5 < key 3 + extras 8"})
 }
